@@ -131,6 +131,54 @@ Theorem C16_select_next_reachable : forall k screen ids,
 Proof. exact c16_select_reachable. Qed.
 Print Assumptions C16_select_next_reachable.
 
+(* ---- the screen evolves within a batch (gap review g5, gap 2): the retrospective pipeline reveals the chosen plate before
+   the next call, so the plates whose ids are in the batch ids ARE observed at the next call ---- *)
+From Batchie Require Import Proofs.C16Reveal.
+
+(* what the policy is handed does not depend on the observation flag of a plate whose id is in the batch ids *)
+Theorem C16_select_args_reveal_invariant : forall i screen ids,
+  In i ids -> select_args (reveal i screen) ids = select_args screen ids.
+Proof. exact c16_select_args_reveal. Qed.
+Print Assumptions C16_select_args_reveal_invariant.
+
+Theorem C16_select_next_reveal_invariant : forall k js screen scores ids,
+  incl js ids -> select_next k (reveal_all js screen) scores ids = select_next k screen scores ids.
+Proof. exact c16_select_next_reveal_all. Qed.
+Print Assumptions C16_select_next_reveal_invariant.
+
+(* a history over an evolving screen (any plates already in the batch revealed between two calls) is a history over the
+   first screen ... *)
+Theorem C16_evolving_history_is_history : forall k screen0 screen ids,
+  sel_hist_reveal k screen0 screen ids ->
+  sel_hist k screen0 ids /\ forall ids', incl ids ids' -> select_args screen ids' = select_args screen0 ids'.
+Proof. exact c16_sel_hist_reveal_is_sel_hist. Qed.
+Print Assumptions C16_evolving_history_is_history.
+
+(* ... hence every state it visits is reachable and covered by the theorems above *)
+Theorem C16_select_next_reachable_evolving : forall k screen0 screen ids,
+  NoDup (map id_of screen0) -> sel_hist_reveal k screen0 screen ids ->
+  reachable k (snd (select_args screen0 [])) (select_args screen ids).
+Proof. exact c16_select_reachable_evolving. Qed.
+Print Assumptions C16_select_next_reachable_evolving.
+
+(* the executable history the correspondence runs with reveals between the calls *)
+Theorem C16_history_reveal_is_history : forall k screen ids tables flags,
+  history_select_reveal k screen ids tables flags = history_select k screen ids tables.
+Proof. exact c16_history_reveal. Qed.
+Print Assumptions C16_history_reveal_is_history.
+
+(* non-vacuity: after choosing plate 3 and revealing it, the next call (batch ids [3]) sees plate 3 observed *)
+Example C16_evolving_example :
+  sel_hist_reveal 2 [((1, [0]), false); ((2, [1]), false); ((3, [1]), false)]
+                    (reveal_all [3] [((1, [0]), false); ((2, [1]), false); ((3, [1]), false)]) ([] ++ [3]) /\
+  reveal_all [3] [((1, [0]), false); ((2, [1]), false); ((3, [1]), false)]
+    = [((1, [0]), false); ((2, [1]), false); ((3, [1]), true)] /\
+  select_next 2 [((1, [0]), false); ((2, [1]), false); ((3, [1]), true)] [(2, 5); (1, 0)] [3] = Ok ([2], Some 2).
+Proof.
+  split; [|split; vm_compute; reflexivity].
+  eapply (selr_snoc 2 _ _ [] [(3, 0); (2, 5)] [2; 3] 3 [3]); [constructor | vm_compute; reflexivity | intros x Hx; exact Hx].
+Qed.
+
 (* non-vacuity.  screen: sample 0 has plates 0,1; sample 1 has plates 2,3; sample 2 has only plate 4; k = 2 *)
 Definition ex_screen : list plate := [(0, [0]); (1, [0]); (2, [1]); (3, [1; 1]); (4, [2])].
 
